@@ -32,7 +32,14 @@ theorem tail_spec (c : Choice) (v : Variant) (rN r0 : Rec) (d1 : Disk) (h1 : d1.
         (crashAt (dataEffs c ++ restartEffs v rN) d1 j h).data = d1.data)
     ∧ (v = .asIs → j = (dataEffs c).length + 1 →
         ((crashAt (dataEffs c ++ restartEffs v rN) d1 j h).restart = .empty
-          ∨ (crashAt (dataEffs c ++ restartEffs v rN) d1 j h).restart = .part)) := by
+          ∨ (crashAt (dataEffs c ++ restartEffs v rN) d1 j h).restart = .part))
+    ∧ ((crashAt (dataEffs c ++ restartEffs v rN) d1 j h).data = d1.data
+        ∨ (crashAt (dataEffs c ++ restartEffs v rN) d1 j h).data
+            = (if c.halfTorn then
+                { appendRows d1.data ((c.accs.map (fun a => a.old.pn)).take c.halfRows) with torn := true }
+               else appendRows d1.data ((c.accs.map (fun a => a.old.pn)).take c.halfRows))
+        ∨ (crashAt (dataEffs c ++ restartEffs v rN) d1 j h).data
+            = appendRows d1.data (c.accs.map (fun a => a.old.pn))) := by
   unfold dataEffs restartEffs
   have hnil : c.accs.isEmpty = true → c.accs.map (fun a => a.old.pn) = [] := by
     intro hh; rw [List.isEmpty_iff.1 hh]; rfl
@@ -64,12 +71,43 @@ theorem outcome_starts (M : Manifest) (d' : Disk) (r : Rec) (L : List PathInfo)
     rfl
   unfold restartOutcome
   simp only [hr]
-  rw [if_neg hrf]
+  rw [if_neg (fun h => hrf h.1)]
   simp [hany, hall]
 
 theorem outcome_raises_of_torn (M : Manifest) (d' : Disk) (h : d'.restart = .empty ∨ d'.restart = .part) :
     restartOutcome M .restartToml d' = .raises := by
   unfold restartOutcome
   rcases h with h | h <;> simp [h]
+
+
+/-! ### clean_data_file -/
+
+theorem cleanData_of_rowsOK (df : DataFile) (act : List Nat) (h : rowsOK df act = true) :
+    cleanData df act = df := by
+  simp only [rowsOK, Bool.and_eq_true, Bool.not_eq_true', beq_iff_eq, decide_eq_true_eq,
+    List.all_eq_true] at h
+  obtain ⟨⟨⟨ht, _⟩, _⟩, hall⟩ := h
+  obtain ⟨rows, g, t⟩ := df
+  simp only at ht hall
+  subst ht
+  simp only [cleanData, DataFile.mk.injEq, and_true]
+  exact List.filter_eq_self.2 (fun a ha => by rw [hall a ha]; rfl)
+
+/-- the data file of a crash point before the new record: old rows plus some rows of paths that
+    are still active — cleaning gives back the old data file -/
+theorem cleanData_of_extra (df X : DataFile) (act extra : List Nat) (h : rowsOK df act = true)
+    (hr : X.rows = df.rows ++ extra) (hg : X.garbled = df.garbled) (he : ∀ q ∈ extra, q ∈ act) :
+    cleanData X act = df := by
+  have hc := cleanData_of_rowsOK df act h
+  simp only [rowsOK, Bool.and_eq_true, Bool.not_eq_true', beq_iff_eq, decide_eq_true_eq,
+    List.all_eq_true] at h
+  obtain ⟨⟨⟨ht, _⟩, _⟩, _⟩ := h
+  rw [← hc]
+  simp only [cleanData, hr, hg, List.filter_append, DataFile.mk.injEq, and_true]
+  have : extra.filter (fun p => !act.contains p) = [] := by
+    rw [List.filter_eq_nil_iff]
+    intro q hq
+    simp [he q hq]
+  rw [this, List.append_nil]
 
 end Infretis.Fs
